@@ -166,6 +166,57 @@ func init() {
 			}}
 			r.Sim(so.Decl, so.Name(), spec)
 			r.Site(loop.Pos(), "sendOperatorEvent: AdvanceTime precedes routeEvent per event")
+			// the watermark message is stamped IN PLACE when it is sent on, and the same pointer is
+			// put into every operator's pending batch: every placeholder queued on outputStream must
+			// therefore be a freshly allocated message, never a shared one
+			outF := r.P.Field("workers/sourcerunner", "SourceRunner", "outputStream")
+			wmWrap := r.P.TypeName("proto/workerpb", "Event_Watermark")
+			wmMsg := r.P.TypeName("proto/workerpb", "Watermark")
+			nFresh := 0
+			for _, fa := range r.fieldAccesses(outF) {
+				if fa.Kind != "send" || prog.IsTestSupport(fa.Use.Pkg.PkgPath) {
+					continue
+				}
+				send := fa.Stmt.(*ast.SendStmt)
+				pinfo := fa.Use.Pkg.TypesInfo
+				isFreshLit := func(e ast.Expr) bool {
+					u, ok := ast.Unparen(e).(*ast.UnaryExpr)
+					if !ok || u.Op.String() != "&" {
+						return false
+					}
+					_, ok = ast.Unparen(u.X).(*ast.CompositeLit)
+					return ok
+				}
+				if isFreshLit(send.Value) {
+					if mentionsType(pinfo, send.Value, wmWrap) {
+						// nested Watermark must be fresh too
+						freshInner := false
+						ast.Inspect(send.Value, func(m ast.Node) bool {
+							if kv, ok := m.(*ast.KeyValueExpr); ok {
+								if id, ok := kv.Key.(*ast.Ident); ok && id.Name == "Watermark" && isFreshLit(kv.Value) && mentionsType(pinfo, kv.Value, wmMsg) {
+									freshInner = true
+								}
+							}
+							return true
+						})
+						r.Site(send.Pos(), "watermark placeholder is freshly allocated")
+						nFresh++
+						if !freshInner {
+							r.Fail(so.Name()+":shared-watermark-message", send.Pos(), nil, "a watermark placeholder wraps a Watermark message that is not allocated at the send: sendOperatorEvent stamps it in place while earlier copies of the same pointer are still waiting in operator batches, so an earlier watermark is rewritten to a later (too large) value")
+						}
+					}
+					continue
+				}
+				// not a literal: could be a shared placeholder
+				t := pinfo.TypeOf(send.Value)
+				_ = t
+				where := r.scopeName(fa.Use.Scope)
+				r.Site(send.Pos(), "non-literal value queued on outputStream in "+where)
+				r.Fail(where+":shared-placeholder", send.Pos(), nil, "a value that is not allocated at the send site (%s) is queued on outputStream: placeholders are mutated in place downstream (watermark stamping) and their pointers are shared between operator batches, so a reused message changes events that were already queued", types.ExprString(send.Value))
+			}
+			if nFresh < 2 {
+				r.Fail(so.Name()+":watermark-placeholders", so.Decl.Pos(), nil, "expected the ticker case and the end-of-input case to queue a fresh watermark placeholder each (found %d)", nFresh)
+			}
 			// watermark case: Timestamp = CurrentWatermark(), then broadcast that message
 			wmT := r.P.TypeName("proto/workerpb", "Event_Watermark")
 			bc := r.P.FuncObj("workers/sourcerunner", "(*operatorCluster).broadcastEvent")
